@@ -2,7 +2,9 @@
 mod imp;
 mod gen;
 mod c01;
+mod c02;
 mod c03;
+mod faults;
 mod c08;
 mod c09;
 mod c10;
@@ -51,6 +53,7 @@ fn main() {
         let v: serde_json::Value = serde_json::from_str(&txt).expect("replay json");
         match id.as_str() {
             "C01" => c01::replay(&v),
+            "C02" => c02::replay(&v),
             "C03" => c03::replay(&v),
             "C08" => c08::replay(&v),
             "C09" => c09::replay(&v),
@@ -65,6 +68,7 @@ fn main() {
     } else {
         match id.as_str() {
             "C01" => c01::run(tier),
+            "C02" => c02::run(tier),
             "C03" => c03::run(tier),
             "C08" => c08::run(tier),
             "C09" => c09::run(tier),
